@@ -90,12 +90,14 @@ CHECKS["C18"] = {
 }
 
 # ---- C20, command / HTTP / CSV part (the orchestrator assembles CHECKS["C20"] from several engines) ----
-C20_CMD_RULE = ("cmd: every TCP command line of <=4 (quick 3) tokens from a 46-token alphabet (all command words, options, "
-                "names, hex strings of odd/even length, empty quotes, over-long number, '-', a definition) in normal mode and "
-                "of <=3 (quick 2) tokens in direct mode; every HTTP request line 'GET <concatenation of <=4 (quick 3) of 26 URI "
-                "tokens incl. %, %n, %s, %*s> HTTP/1.1'; every assignment of 34 CSV column tokens to <=4 (quick 3) holes of 10 "
-                "line frames fed to the template loader, the message loader and the define/decode/encode commands. Each case "
-                "runs in a child forked from the pristine parent (ASan+UBSan build), followed by a fixed probe. "
+C20_CMD_RULE = ("cmd: every TCP command line of <=3 tokens from a 44-token alphabet (all 22 command words, options, names, "
+                "hex strings of odd/even length, empty quotes, over-long number, '-', a definition), thorough also every "
+                "4-token line of the 10 commands whose usage admits >=3 arguments; the same lines of <=2 (thorough 3) tokens "
+                "in direct mode; every HTTP request line 'GET <concatenation of <=3 (thorough 4) of 26 URI tokens incl. %, "
+                "%n, %s, %*s> HTTP/1.1'; every assignment of 30 CSV column tokens to 2-3 (thorough 3) holes of 11 line frames "
+                "fed to the template loader, the message loader and the define/decode/encode commands. Each case runs on "
+                "a freshly built daemon state in a forked child (ASan+UBSan build; one fork per batch of 48 cases, every "
+                "alarm re-judged alone in a child of its own), followed by a fixed probe and the destructors. "
                 "distinct = distinct inputs.")
 C20_CMD_ASSUMPTIONS = [
     "cmd part: 'arbitrary' command lines / HTTP requests / CSV text are covered up to the stated token alphabets and lengths; "
@@ -108,9 +110,9 @@ C20_CMD_RUNS = [{
     "harness": "c20_cmd", "sources": ["engines/cmdmc/c20_cmd.cpp"], "deps": _FIX,
     "variant": "san", "libset": "full",
     "quick": {"parts": 16, "deadline": 150,
-              "bounds": "tcp <=3 tokens of 46 (direct mode <=2); http <=3 of 26 URI tokens; csv <=3 holes x 34 tokens x 10 frames"},
-    "thorough": {"parts": 16, "deadline": 1200,
-                 "bounds": "tcp <=4 tokens of 46 (direct mode <=3); http <=4 of 26 URI tokens; csv <=4 holes x 34 tokens x 10 frames"},
+              "bounds": "tcp <=3 tokens of 44 (direct mode <=2); http <=3 of 26 URI tokens; csv 30 tokens x 2-3 holes x 11 frames"},
+    "thorough": {"parts": 16, "deadline": 1500,
+                 "bounds": "tcp <=3 tokens of 44 + 4-token lines of 10 commands (direct mode <=3); http <=4 of 26 URI tokens; csv 30 tokens x 3 holes x 11 frames"},
 }]
 
 # PRIVATE-TEST-REGISTRATION-BEGIN (removed before hand-over)
@@ -120,4 +122,6 @@ CHECKS["C20A"] = {
     "technique": "bounded-exhaustive enumeration with sanitizers as oracle", "rule": C20_CMD_RULE,
     "assumptions": C20_CMD_ASSUMPTIONS, "runs": C20_CMD_RUNS,
 }
+CHECKS["C20M"] = dict(CHECKS["C20A"], runs=[dict(C20_CMD_RUNS[0],
+    quick={"parts": 4, "deadline": 150, "args": ["--only", "http", "--httplen", "1", "--budget", "2"], "bounds": "hang mutant demo"})])
 # PRIVATE-TEST-REGISTRATION-END
